@@ -589,11 +589,59 @@ def run_one(sim, sc, name, radix, sharefmt, acc, label, variant):
     return vs, nt, r
 
 
+def line_entries(r, name, outdir="/w/t"):
+    """The (file, line, address) facts of whichever debug file the run wrote, in a comparable form."""
+    mp = r.files.get("%s/%s.map" % (outdir, name))
+    if mp is not None:
+        return ("map", sorted(parse_map(mp)[0]))
+    noi = r.files.get("%s/%s.noi" % (outdir, name))
+    if noi is not None:
+        return ("noice", sorted(parse_noice(noi)[0]))
+    obj = r.files.get("%s/%s.obj" % (outdir, name))
+    if obj is not None:
+        pa = parse_atmel(obj)
+        return ("atmel", sorted(pa[0]) if pa else None)
+    return (None, None)
+
+
+def final_newline_pair(sim, sc, name, r, variant, acc):
+    """Metamorphic companion run: the same sources with the newline after their last line taken away.  The emission trace
+    cannot witness line numbers (it reports the assembler's own counter), two runs of equivalent sources can: their
+    line:address facts must be the same."""
+    disk2 = {}
+    changed = False
+    for k, v in sc["disk"].items():
+        if isinstance(v, bytes) and k.startswith("/w/") and v.endswith(b"\n") and not v.endswith(b"\n\n") and b"\0" not in v and not k.endswith((".bin", ".p")):
+            disk2[k] = v[:-1]
+            changed = True
+        else:
+            disk2[k] = v
+    if not changed:
+        return []
+    sc2 = dict(sc)
+    sc2["disk"] = disk2
+    r2, san2 = sim.run("asl", sc2, variant)
+    acc["runs"] += 1
+    acc["faults"]["final_newline_removed"] = acc["faults"].get("final_newline_removed", 0) + 1
+    if oracle.classify("asl", r2, san2) or r2.outcome != r.outcome:
+        if r2.outcome != r.outcome and not oracle.classify("asl", r2, san2):
+            return [("C19/outcome-depends-on-final-newline", "%s: %s with, %s without the newline after the last line" % (name, r.outcome, r2.outcome))]
+        return []
+    a, b = line_entries(r, name), line_entries(r2, name)
+    if a[0] and a != b:
+        da = [x for x in (a[1] or []) if x not in (b[1] or [])][:2]
+        db = [x for x in (b[1] or []) if x not in (a[1] or [])][:2]
+        return [("C19/line-entries-depend-on-final-newline", "%s (%s): with the final newline %s, without it %s" % (name, a[0], da, db))]
+    return []
+
+
 def run_case(sim, case):
     acc = {"runs": 0, "sim_us": 0, "shapes": set(), "keys": [], "stats": {}, "faults": {}, "probes": {}}
     if case.get("kind") == "explicit":
         sc = scenario_from_json(case["scenario"])
         vs, nt, r = run_one(sim, sc, case["name"], case["radix"], case["sharefmt"], acc, case["name"], case.get("variant", "plain"))
+        if case.get("nonl") and not vs:
+            vs = vs + final_newline_pair(sim, sc, case["name"], r, case.get("variant", "plain"), acc)
         seen = {}
         for c, d in vs:
             seen.setdefault(c, d)
@@ -618,6 +666,9 @@ def run_case(sim, case):
         variant = "asan" if rng.chance(0.05) else "plain"
         vs, nt, r = run_one(sim, sc, name, radix, sharefmt, acc, name, variant)
         c = {"kind": "explicit", "scenario": scenario_to_json(sc), "name": name, "radix": radix, "sharefmt": sharefmt, "variant": variant}
+        if not big and not vs and rng.chance(0.25):
+            c["nonl"] = True
+            vs = vs + final_newline_pair(sim, sc, name, r, variant, acc)
         acc["keys"].append((int(chash(c), 16), 1 if (nt or extra or pred) else 0))
         if extra:
             acc["faults"]["extra_pass"] = acc["faults"].get("extra_pass", 0) + 1
